@@ -398,6 +398,8 @@ func (cc *connectUnaryClientConn) validateResponse(response *http.Response) *Err
 			reader:          response.Body,
 			compressionPool: cc.compressionPools.Get(compression),
 			bufferPool:      cc.bufferPool,
+			// An error payload is peer-controlled data too.
+			readMaxBytes: cc.unmarshaler.readMaxBytes,
 		}
 		var serverErr Error
 		// A body in an encoding we can't read - say, an error page from a proxy -
